@@ -1,16 +1,16 @@
 ---------------------------- MODULE HBondTrace ----------------------------
 (* Trace validation of md.kabsch_sander (C14, part 3).  One record per frame: for every ordered residue pair (donor, acceptor)
    inside the 0.9 nm C-alpha prefilter the four distances r_HO, r_NC, r_HC, r_NO of the documented construction (amide hydrogen
-   0.1 nm from N along the previous residue's C=O direction) as integers in units of 1e-4 nm, computed by the driver in float64.
-   E = 2.7888 nm kcal/mol * (1/r_HC + 1/r_NO - 1/r_HO - 1/r_NC); with S = 10^8 div r_HO + 10^8 div r_NC - 10^8 div r_HC - 10^8 div r_NO
-   the bond exists iff E < -0.5 kcal/mol iff S > 1792.9; |S - 1793| <= 4 is left undecided (|E + 0.5| < 0.0012).
+   0.1 nm from N along the previous residue's C=O direction) as integers in units of 1e-5 nm, computed by the driver in float64.
+   E = 2.7888 nm kcal/mol * (1/r_HC + 1/r_NO - 1/r_HO - 1/r_NC); with S = 10^9 div r_HO + 10^9 div r_NC - 10^9 div r_HC - 10^9 div r_NO
+   the bond exists iff E < -0.5 kcal/mol iff S > 1792.9; |S - 1793| <= 4 is left undecided (|E + 0.5| < 0.0012; rounding the four distances to 1e-5 nm moves S by at most 2.4).
    Proline donors and incomplete residues never donate, residue i+1 never donates to residue i's C=O ... (rj != ri + 1),
    only the two lowest energies per donor are kept. *)
 EXTENDS Integers, Sequences, FiniteSets, Json, IOUtils, TLCExt, TLC
 Tr == JsonDeserialize(IOEnv.TRACE_FILE).recs
 VARIABLE l
 Init == l = 1
-S(c) == (100000000 \div c.rho) + (100000000 \div c.rnc) - (100000000 \div c.rhc) - (100000000 \div c.rno)
+S(c) == (1000000000 \div c.rho) + (1000000000 \div c.rnc) - (1000000000 \div c.rhc) - (1000000000 \div c.rno)
 Decided(c) == S(c) > 1797 \/ S(c) < 1789
 Bonded(c) == S(c) > 1797
 Cands(r) == { r.cands[i] : i \in 1..Len(r.cands) }
